@@ -10,7 +10,7 @@ Directive grammar (one per line, leading blanks allowed):
   //@struct NAME [from=ALIAS] [keep=a,b] [derive=Clone,Copy] [erase]  (D3/D5/R1)
   //@enum NAME [from=ALIAS] [derive=..]
   //@item const|type|static NAME [from=ALIAS]
-  //@fn PATH [from=ALIAS] [selfmut] [ret=r] [props=C31,C32] [novis] [rules=+R2,-D2] [r9=expr;expr]
+  //@fn PATH [from=ALIAS] [selfmut] [ret=r] [props=C31,C32] [novis] [optional] [rules=+R2,-D2] [r9=expr;expr]
   //@requires            following plain lines, up to the next //@ line
   //@ensures             clause labels are trailing `//#label`
   //@decreases
@@ -404,7 +404,15 @@ class Unit:
             spec['hints'] = []
             spec['chains'] = []
         src = self.source(alias)
-        loc = src.find_fn(path)
+        try:
+            loc = src.find_fn(path)
+        except ScanError as e:
+            if 'optional' in flags:
+                # a helper that only some versions of the code have: without it, its callers are checked against
+                # whatever they call instead
+                self.lost_anchors.append('%s: optional function not present (%s)' % (path, e))
+                return
+            raise
         raw = src.text[loc['start']:loc['end']]
         props = kv.get('props').split(',') if kv.get('props') else list(self.properties)
         sha = hashlib.sha256(raw.encode()).hexdigest()
